@@ -202,6 +202,23 @@ def make_sym_harness(op, alg):
       if not applied:
         e.check('C13.star.falls_back_to_default_no_quantize',
                 got[1] == qtyping.OpQuantizationConfig(), info=[op.value])
+    # history independence of the "*" path: after an accepted "*" rule has
+    # been resolved once, replacing it resolves like a fresh manager
+    if got is not None and members:
+      rm3 = recipe_manager.RecipeManager()
+      try:
+        rm3.add_quantization_config('.*', _Op.ALL_SUPPORTED, members[0], alg)
+        rm3.get_quantization_configs(op, 'scope;')
+        rm3.add_quantization_config('.*', _Op.ALL_SUPPORTED, cfg, alg)
+        got3 = rm3.get_quantization_configs(op, 'scope;')
+        same = z3.And(z3.BoolVal(str(got3[0]) == str(got[0])),
+                      c12.cfg_eq(got3[1], got[1]))
+      except Inconclusive:
+        raise
+      except Exception as ex:  # pylint: disable=broad-except
+        same = z3.BoolVal(False)
+      e.check('C13.star.replacing_a_resolved_rule_resolves_like_fresh', same,
+              info=[op.value, str(alg)])
     if outcome == 'accepted':
       # nothing outside the finite lattice (e.g. 5 bits, a block size, a
       # negative width) is ever accepted
@@ -419,6 +436,16 @@ def replay(c):
     return True, f'"*" path raises {type(ex).__name__}', f'{what}: {ex}'
   applied = got[0] != algorithm_manager.AlgorithmName.NO_QUANTIZE
   bad = []
+  members_ = [m for a, o, m in accepted_pairs() if a == alg and o == op]
+  if members_:
+    rm3 = recipe_manager.RecipeManager()
+    rm3.add_quantization_config('.*', _Op.ALL_SUPPORTED, members_[0], alg)
+    rm3.get_quantization_configs(op, 'scope;')
+    rm3.add_quantization_config('.*', _Op.ALL_SUPPORTED, cfg, alg)
+    g3 = rm3.get_quantization_configs(op, 'scope;')
+    if str(g3[0]) != str(got[0]) or g3[1] != got[1]:
+      bad.append('replacing a resolved "*" rule resolves differently from a '
+                 f'fresh manager: {g3[0]} vs {got[0]}')
   if applied != (outcome == 'accepted'):
     bad.append(f'specific update {outcome} but "*" resolution applied='
                f'{applied}')
